@@ -69,13 +69,9 @@ fn run_case(rec: &mut Rec, d: &Value) {
             }
         }
         if matches!(s, Shape::Rect(_) | Shape::Ellipse(_) | Shape::RRect(_) | Shape::Triangle(_) | Shape::Circle(_) | Shape::Sector(..)) {
-            // ... within the range in which the 64-bit products of the ellipse test are exact:
-            // (2 * distance + size) * size < 2^31, so that its square stays below 2^62
-            let size = bb.size.width.max(bb.size.height).max(1) as i64;
-            for dd in [23_171i32, 32_778, 65_537, 1_000_003, 16_700_000] {
-                if (2 * dd as i64 + size) * size >= (1i64 << 31) {
-                    continue;
-                }
+            // (until the repair D34 these probes were kept inside the range in which the 64-bit products of the
+            // ellipse test are exact - beyond it the test panicked / wrapped; that restriction hid the defect)
+            for dd in [23_171i32, 32_778, 65_537, 1_000_003, 16_700_000, 134_217_803, 268_435_606] {
                 for (sx, sy) in [(1, 0), (0, 1), (-1, 0), (0, -1), (1, 1), (-1, 1)] {
                     let p = bb.center() + Point::new(sx * dd, sy * dd);
                     if !bb.contains(p) {
